@@ -32,10 +32,10 @@ Section Proofs.
   Notation eprox := (eval_prox lb ub l1).
   Notation epsih := (eval_psih psi_grad_full psi_yhat P).
   Notation epsihx := (eval_psih_exit psi_yhat).
-  Notation egradh := (eval_gradh grad_L).
-  Notation lsloop := (ls_loop psi_grad_full psi_yhat grad_L lb ub l1 stop_req P).
-  Notation pass_ := (pass psi_grad_full psi_yhat grad_L lb ub l1 dir_apply has_initial stop_req time_up P x_in y_in Σ errz_in ls_fuel).
-  Notation loop_ := (loop psi_grad_full psi_yhat grad_L lb ub l1 dir_apply has_initial stop_req time_up P x_in y_in Σ errz_in ls_fuel).
+  Notation egradh := (eval_gradh grad_L grad_psi P).
+  Notation lsloop := (ls_loop psi_grad_full psi_yhat grad_L grad_psi lb ub l1 stop_req P).
+  Notation pass_ := (pass psi_grad_full psi_yhat grad_L grad_psi lb ub l1 dir_apply has_initial stop_req time_up P x_in y_in Σ errz_in ls_fuel).
+  Notation loop_ := (loop psi_grad_full psi_yhat grad_L grad_psi lb ub l1 dir_apply has_initial stop_req time_up P x_in y_in Σ errz_in ls_fuel).
   Notation panoc_ := (panoc psi_grad_full psi_yhat grad_L grad_psi lb ub l1 dir_apply has_initial stop_req time_up P x_in y_in Σ errz_in ls_fuel).
   Notation pgrad := (psi_grad psi_grad_full).
   Notation qubv := (it_qub_violated P).
@@ -47,7 +47,7 @@ Section Proofs.
     if p_eager P then (fst (fst (psi_grad_full x)), snd (psi_grad_full x)) else psi_yhat x.
   (* a gradient buffer holds "∇ψ at x̂": eval_grad_L(x̂, ŷ) or, with eager evaluation, the gradient output of eval_ψ_grad_ψ(x̂) *)
   Definition is_gradh (x yh g : list R) : Prop :=
-    g = grad_L x yh \/ (p_eager P = true /\ g = snd (fst (psi_grad_full x))).
+    g = grad_L x yh \/ (p_eager P = true /\ (g = snd (fst (psi_grad_full x)) \/ g = grad_psi x)).
   (* (ψ, ∇ψ) at x: from eval_ψ_grad_ψ(x), or carried over from the x̂-side of the previous iterate (take_safe_step) *)
   Definition val_x (x : list R) (ψ : R) (g : list R) : Prop :=
     (ψ, g) = pgrad x \/ (ψ = fst (psi_hat_of x) /\ is_gradh x (snd (psi_hat_of x)) g).
@@ -124,7 +124,8 @@ Section Proofs.
   Lemma egradh_cons (i : it) : consistent i -> consistent (egradh i) /\ core (egradh i) = core i /\ ihave (egradh i) = true.
   Proof.
     intros Hc. split; [|split; reflexivity].
-    apply (consistent_core i); [reflexivity| |exact Hc]. intros _. left. reflexivity.
+    apply (consistent_core i); [reflexivity| |exact Hc]. intros _. unfold is_gradh, eval_gradh. cbn [igradh ixh iyh].
+    destruct (p_eager P); [right; split; [reflexivity|right; reflexivity]|left; reflexivity].
   Qed.
   Lemma set_gl_cons_x (i : it) γ L : cons_x i -> cons_x (set_gamma_L i γ L).
   Proof. exact (fun H => H). Qed.
@@ -132,7 +133,7 @@ Section Proofs.
   (* the step taken when τ changed *)
   Lemma safe_step_facts (curr next : it) c :
     consistent curr ->
-    let r := take_safe_step grad_L curr next c in
+    let r := take_safe_step grad_L grad_psi P curr next c in
     let curr' := fst (fst r) in let next' := snd (fst r) in
     consistent curr' /\ core curr' = core curr /\ cons_x next' /\ ix next' = ixh curr /\ ipsi next' = ipsih curr /\
     igam next' = igam next /\ iL next' = iL next.
@@ -204,7 +205,7 @@ Section Proofs.
     set (τ := ls_tau s) in *.
     (* the step phase *)
     set (ph := if Req_bool τ (ls_tau_prev s) then (ls_curr s, ls_next s, inc_polls (ls_cnt s))
-               else if Req_bool τ 0 then take_safe_step grad_L (ls_curr s) (ls_next s) (inc_polls (ls_cnt s))
+               else if Req_bool τ 0 then take_safe_step grad_L grad_psi P (ls_curr s) (ls_next s) (inc_polls (ls_cnt s))
                else (ls_curr s, take_accel_step psi_grad_full τ q (ls_curr s) (ls_next s), inc_pg (inc_polls (ls_cnt s)))).
     assert (F : consistent (fst (fst ph)) /\ core (fst (fst ph)) = core c0 /\ halved c0 (snd (fst ph)) /\
                 cons_x (snd (fst ph)) /\ (τ = 0 -> safe_of c0 (snd (fst ph)))).
@@ -373,7 +374,7 @@ Section Proofs.
     change (@n0 R NumR) with 0. change (@n1 R NumR) with 1. change (@nopp R NumR) with Ropp.
     set (need := need_gradh P && negb (ihave (st_curr s))).
     set (curr := if need then egradh (st_curr s) else st_curr s).
-    set (c0 := if need then inc_gl (st_cnt s) else st_cnt s).
+    set (c0 := if need then cnt_gradh P (st_cnt s) else st_cnt s).
     assert (Hcurr : consistent curr /\ core curr = core (st_curr s) /\ (need_gradh P = true -> ihave curr = true)).
     { subst curr need. destruct (need_gradh P); cbn [andb]; [|split; [exact Hc|split; [reflexivity|discriminate]]].
       destruct (ihave (st_curr s)) eqn:Eh; cbn [negb].
@@ -554,7 +555,7 @@ Section Proofs.
   Qed.
 
   (* ------------------------------------------------------------------ (a) reading the invariant *)
-  Definition coherent : Prop := forall x, pgrad x = (fst (psi_hat_of x), grad_L x (snd (psi_hat_of x))).
+  Definition coherent : Prop := forall x, pgrad x = (fst (psi_hat_of x), grad_L x (snd (psi_hat_of x))) /\ grad_psi x = snd (pgrad x).
 
   Lemma consistent_explicit (i : it) : consistent i ->
     ixh i = vadd (ix i) (ip i) /\
@@ -568,12 +569,13 @@ Section Proofs.
   Qed.
   Lemma is_gradh_coherent x g : coherent -> is_gradh x (snd (psi_hat_of x)) g -> g = snd (pgrad x).
   Proof.
-    intros Hco [E|[Ee E]]; [rewrite (Hco x); cbn [snd]; exact E|].
-    rewrite E. reflexivity.
+    intros Hco. destruct (Hco x) as [Hc1 Hc2]. intros [E|[Ee [E|E]]]; [rewrite Hc1; cbn [snd]; exact E| |].
+    - rewrite E. reflexivity.
+    - rewrite E. exact Hc2.
   Qed.
   Lemma val_x_coherent x ψ g : coherent -> val_x x ψ g -> (ψ, g) = pgrad x.
   Proof.
-    intros Hco [E|[E1 E2]]; [exact E|]. rewrite (is_gradh_coherent x g Hco E2), E1, (Hco x). reflexivity.
+    intros Hco [E|[E1 E2]]; [exact E|]. destruct (Hco x) as [Hc1 _]. rewrite (is_gradh_coherent x g Hco E2), E1, Hc1. reflexivity.
   Qed.
   (* under oracle coherence: ψx, ∇ψ are the values of eval_ψ_grad_ψ at x, and a valid ∇ψ(x̂) buffer holds its gradient at x̂ *)
   Lemma consistent_coherent (i : it) : coherent -> consistent i ->
@@ -780,9 +782,9 @@ Section Proofs.
       intros Hx Hmn. induction Hmn as [|n Hmn IH]; [lra|]. cbn [pow].
       assert (0 <= x ^ n) by (apply pow_le; lra). nra.
     Qed.
-    Lemma iL_safe_next (curr next : it) c : iL (snd (fst (take_safe_step grad_L curr next c))) = iL next.
+    Lemma iL_safe_next (curr next : it) c : iL (snd (fst (take_safe_step grad_L grad_psi P curr next c))) = iL next.
     Proof. unfold take_safe_step. destruct (ihave curr); reflexivity. Qed.
-    Lemma iL_safe_curr (curr next : it) c : iL (fst (fst (take_safe_step grad_L curr next c))) = iL curr.
+    Lemma iL_safe_curr (curr next : it) c : iL (fst (fst (take_safe_step grad_L grad_psi P curr next c))) = iL curr.
     Proof. unfold take_safe_step. destruct (ihave curr); reflexivity. Qed.
     Lemma iL_psih_prox (i : it) : iL (epsih (eprox i)) = iL i.
     Proof. unfold eval_psih. destruct (p_eager P); reflexivity. Qed.
@@ -802,7 +804,7 @@ Section Proofs.
       change (@n0 R NumR) with 0. change (@n1 R NumR) with 1. change (@nmul R NumR) with Rmult.
       set (τ := ls_tau s) in *.
       set (ph := if Req_bool τ (ls_tau_prev s) then (ls_curr s, ls_next s, inc_polls (ls_cnt s))
-                 else if Req_bool τ 0 then take_safe_step grad_L (ls_curr s) (ls_next s) (inc_polls (ls_cnt s))
+                 else if Req_bool τ 0 then take_safe_step grad_L grad_psi P (ls_curr s) (ls_next s) (inc_polls (ls_cnt s))
                  else (ls_curr s, take_accel_step psi_grad_full τ q (ls_curr s) (ls_next s), inc_pg (inc_polls (ls_cnt s)))).
       assert (F : iL (fst (fst ph)) = cL /\ iL (snd (fst ph)) = cL * 2 ^ a).
       { subst ph. destruct (Req_bool τ (ls_tau_prev s)); [split; assumption|].
